@@ -299,7 +299,7 @@ fn check_walk(v: &[EstTime], path: &[usize], links: &[Link], origins: &[u32], de
 pub struct C15;
 impl C15 {
     fn gen(g: &mut Gen, _tier: Tier) -> DispatchCase {
-        gen_dispatch_case(g, 1, &CorridorOpts { max_stages: 9, p_branch: 0.4, ..Default::default() })
+        gen_dispatch_case(g, 1, &CorridorOpts { max_stages: 9, p_branch: 0.4, p_short_ends: 0.0, ..Default::default() })
     }
     fn check(case: &DispatchCase, cx: &mut Ctx) {
         scenario_labels(case, cx);
